@@ -319,8 +319,9 @@ def build_state(seed, tier, nt, typed=None):
         cfg["slots"] = ["typed" if typed else "plain"]
     else:
         cfg["slots"] = [cfg["slots"][0] if cfg["slots"][0] in ("plain", "typed") else "plain"]
-    if cfg["flavours"] == ["f"]:
-        cfg["flavours"] = ["s", "i", "w"]
+    # FileSystemEntry field names (n/s/m/d) collide with the short keys of the key maps
+    cfg["flavours"] = [f for f in cfg["flavours"] if f != "f"] or ["s", "i", "w"]
+    cfg["bulk"] = None  # documents of ordinary size
     cfg["length"] = min(cfg["length"], 25)
     cfg["weights"] = {"add": 30, "move": 5, "remove": 3, "set_data": 6, "sort": 2}
     w = new_world(cfg, nt)
